@@ -229,7 +229,37 @@ func c01Get(tier mc.Tier) *c01Fixture {
 
 // c01Judge is the oracle for one mutant.
 func c01Judge(c *mc.Ctx, f *c01Fixture, media string, mutant []byte, class, desc string, entry *c01Entry) {
-	content, perr, verr, pan := parseVerify(media, mutant)
+	c01JudgeOrder(c, f, media, mutant, class, desc, entry, false)
+	// the same object asked for its (untrusted) content first and verified afterwards must not be more permissive
+	c01JudgeOrder(c, f, media, mutant, class, desc+" [Content() called before Verify()]", entry, true)
+}
+
+// parseContentThenVerify: ParseEnvelope, Content() (result ignored), then Verify() on the same object.
+func parseContentThenVerify(media string, env []byte) (content *signature.EnvelopeContent, parseErr, verifyErr error, pan any) {
+	defer func() {
+		if r := recover(); r != nil {
+			pan = r
+		}
+	}()
+	e, err := signature.ParseEnvelope(media, env)
+	if err != nil {
+		return nil, err, nil, nil
+	}
+	e.Content()
+	content, verifyErr = e.Verify()
+	return
+}
+
+func c01JudgeOrder(c *mc.Ctx, f *c01Fixture, media string, mutant []byte, class, desc string, entry *c01Entry, contentFirst bool) {
+	var content *signature.EnvelopeContent
+	var perr, verr error
+	var pan any
+	if contentFirst {
+		content, perr, verr, pan = parseContentThenVerify(media, mutant)
+		class += "'"
+	} else {
+		content, perr, verr, pan = parseVerify(media, mutant)
+	}
 	if pan != nil {
 		c.Outcome("panic")
 		c.Fail("C01 panic while parsing/verifying a mutant ("+class+")", "%s of %s: %v", desc, entry.name, pan)
